@@ -415,6 +415,7 @@ def batch_scenarios(ctx):
     jobs, meta = [], []
     x = pt.make_placeholder("x", (4,), np.float64)
     y = pt.make_placeholder("y", (4,), np.float64)
+    _inner = pt.make_dict_of_named_arrays({"a": x * 2, "b": x + y})
     data = np.arange(4.0) + 100
     scen = {
         "named-temp": pt.make_dict_of_named_arrays({"o": (x + 1).tagged((Named("foo"), ImplStored())) * 2}),
@@ -474,6 +475,19 @@ def batch_scenarios(ctx):
             {"res": _lpcall(x)["out"] + (y + 1).tagged((Named("res"), ImplStored())) * 2}),
         "loopy-call-output-named-like-callee-arg": pt.make_dict_of_named_arrays(
             {"a": _lpcall(x)["out"] * 2, "out": _lpcall(y)["out"] + 1}),
+        # an argument of the call that is an expression (stored in a temporary of its own) next to other temporaries
+        "loopy-call-expression-argument-next-to-stored-temps": pt.make_dict_of_named_arrays(
+            {"o": _lpcall(3 * x + 1)["out"] + (y + 1).tagged(ImplStored()) * 2, "p": _lpcall(x * y)["out"]}),
+        "loopy-call-expression-argument-only": pt.make_dict_of_named_arrays({"o": _lpcall(3 * x + 1)["out"]}),
+        "loopy-call-named-expression-argument-equals-input": pt.make_dict_of_named_arrays(
+            {"o": _lpcall((3 * y + 1).tagged(Named("x")))["out"] + x}),
+        # a dictionary of arrays used INSIDE the graph (its entries are operands), next to other temporaries
+        "inner-dictionary-next-to-stored-temps": pt.make_dict_of_named_arrays(
+            {"o": _inner["a"] + (_inner["b"] * 2).tagged(ImplStored()) + (x * 3).tagged(ImplStored())}),
+        "inner-dictionary-and-reduction": pt.make_dict_of_named_arrays(
+            {"o": _inner["a"] * pt.sum(_inner["b"]) + (y - 1).tagged(ImplStored())}),
+        "inner-dictionary-named-entry-equals-input": pt.make_dict_of_named_arrays(
+            {"o": pt.make_dict_of_named_arrays({"a": (y * 2).tagged(Named("x")), "b": x + y})["a"] + x}),
         "two-unnamed-dws": pt.make_dict_of_named_arrays(
             {"o": pt.make_data_wrapper(data) + pt.make_data_wrapper(data * 2) + x}),
         "same-array-two-keys": pt.make_dict_of_named_arrays({"o": x + y, "p": x + y}),
@@ -501,7 +515,9 @@ def batch_scenarios(ctx):
             if nm in ("dw-named-equals-input", "prefix-then-named-same-name", "named-then-prefix-same-name",
                       "named-temp-equals-output-key", "dw-prefix-equals-temp-named", "prefix-suffixed-then-named",
                       "named-then-prefix-suffixed", "dw-named-next-to-suffixed-prefix",
-                      "named-suffixed-and-named-plain", "loopy-call-then-named-equals-output") and r.error_class == "ValueError":
+                      "named-suffixed-and-named-plain", "loopy-call-then-named-equals-output",
+                      "loopy-call-named-expression-argument-equals-input",
+                      "inner-dictionary-named-entry-equals-input") and r.error_class == "ValueError":
                 continue        # "a Named tag yields exactly that name or an error"
             if nm.startswith("reserved-input-name") and r.stage in ("generate", "prep"):
                 continue        # rejected: allowed
@@ -514,7 +530,7 @@ def batch_scenarios(ctx):
         k = r.kir or {}
         nmz = k.get("names", {})
         space = nmz.get("args", []) + nmz.get("temps", []) + nmz.get("inames", []) + nmz.get("substs", [])
-        dups = sorted({a for a in space if space.count(a) > 1})
+        dups = sorted({a for a in space if space.count(a) > 1} | set(nmz.get("multi_writers", [])))
         if dups:
             dis += 1
             ctx.violation(f"names:duplicate-identifier:{nm}",
